@@ -136,6 +136,7 @@ func (r *ReceiverReport) Unmarshal(rawPacket []byte) error {
 	}
 
 	r.SSRC = binary.BigEndian.Uint32(rawPacket[rrSSRCOffset:])
+	r.Reports = nil
 
 	for i := rrReportOffset; i < len(rawPacket) && len(r.Reports) < int(h.Count); i += receptionReportLength {
 		var rr ReceptionReport
